@@ -340,16 +340,37 @@ def as_number(t):
     return F(cal.ms_of(t)) if isinstance(t, _dt.datetime) else F(t)
 
 
-def expected_box_size(datum, opts):
-    """(along-axis size, across-axis size) of the label box of one datum."""
+def expected_box_size(datum, opts, line_height=13.0):
+    """(along-axis size, across-axis size) of the label box of one datum: the datum's size plus padding.  A datum with
+    an explicit width supplies one dimension; the other is the library's line height (one value per drawing, see
+    infer_line_height), which the checks do not pin to a particular number."""
     pad = opts.get("labelPadding", DEFAULT_PAD)
     w = datum.get("width", 50)
     has_text = bool(datum.get("text"))
     if opts.get("direction", "right") in HORIZ:
-        return w + pad["left"] + pad["right"], 13.0 + pad["top"] + pad["bottom"]
+        return w + pad["left"] + pad["right"], line_height + pad["top"] + pad["bottom"]
     if has_text:
-        return 13.0 + pad["left"] + pad["right"], w + pad["top"] + pad["bottom"]
-    return w + pad["left"] + pad["right"], 13.0 + pad["top"] + pad["bottom"]
+        return line_height + pad["left"] + pad["right"], w + pad["top"] + pad["bottom"]
+    return w + pad["left"] + pad["right"], line_height + pad["top"] + pad["bottom"]
+
+
+def infer_line_height(direction, boxes, data, opts):
+    """The line height the drawing uses, read off the first box (the dimension its datum does not supply)."""
+    pad = opts.get("labelPadding", DEFAULT_PAD)
+    if not boxes:
+        return 13.0
+    a_sz, c_sz = box_sizes(direction, boxes[0])
+    if direction in HORIZ:
+        return c_sz - pad["top"] - pad["bottom"]
+    # left/right: text labels are rotated; which dimension carries the line height depends on the datum, which
+    # is matched by sorted order later - take the smallest candidate that is consistent for every box
+    cands = {a_sz - pad["left"] - pad["right"], c_sz - pad["top"] - pad["bottom"]}
+    for h in sorted(cands):
+        exp = sorted(expected_box_size(d, opts, h) for d in data)
+        got = sorted(box_sizes(direction, b) for b in boxes)
+        if exp == got:
+            return h
+    return 13.0
 
 
 def along(direction, p):
